@@ -11,6 +11,9 @@ for d in sorted(glob.glob(os.path.join(ROOT, "seeded", "C*"))):
     except Exception:
         continue
     v = m.get("verification", {})
+    if v.get("valid_seed") is False and "REJECTED" in v.get("note", ""):
+        print("| %s | %s | %s | rejected as a seed | fails the repository's own suite |" % (os.path.basename(d), m.get("summary", "")[:160].replace("|", "/"), m.get("needs", "")[:140].replace("|", "/")))
+        continue
     det = v.get("detected_by", [])
     how = []
     for c in det:
